@@ -12,8 +12,12 @@ ID = "C12"
 LEVEL = "proof"
 # --nofork: the code under test is pure integer arithmetic on in-domain inputs (no crash isolation needed;
 # a crash fails the run), and one write per case would dominate the run time
-HARNESSES = [{"name": "main", "src": "harness.cpp", "flags": ["-O0", "-DTETL_ENABLE_CONTRACT_CHECKS=1"],
-              "args": ["--nofork"]}]
+# The harness instantiates ~215 (period pair, rep pair) combinations: compiled as 4 parts in parallel by pcxx.py
+# (~12 s instead of ~35 s; it has to be rebuilt whenever /repo/include changes).
+import os as _os
+_PCXX = _os.path.join(_os.path.dirname(_os.path.abspath(__file__)), "pcxx.py")
+HARNESSES = [{"name": "main", "src": "harness.cpp", "compiler": _PCXX,
+              "flags": ["-O0", "-DTETL_ENABLE_CONTRACT_CHECKS=1", "-DC12_NPARTS=4"], "args": ["--nofork"]}]
 
 RULE = ("for every ordered pair of the 10 periods {nano, micro, milli, 1, 60, 3600, 86400, 1/3, 5/7, 1001/30000} "
         "(int64 reps): every count in [-2000, 2000] through duration_cast/floor/ceil/round, plus exact ties, exact "
@@ -212,16 +216,34 @@ def gen(tier, rng):
                 out.append(h("period"))
                 out.append(h("limits"))
                 # ---- conversions with one count
-                if core and rc == 0:
-                    # quick: every count where the window [-2000, 2000] reaches a rounding boundary
-                    # (inexact factor, and at least half a target tick inside the window); a stride of 5
-                    # where every conversion is exact (cd == 1) or every result is in {-1, 0, 1}
+                if not quick:
+                    cs = sweep if (core and rc == 0) else range(-2000, 2001, 3 if core else 7)
+                elif core and rc == 0:
+                    # quick: the results are periodic in the count with period cd (2*cd for the tie parity):
+                    # every count of [-W, W] with W = 2*cd + 5 (capped at 2000) reaches every residue with both
+                    # signs and both parities of the floor; outside it a stride.  Where every conversion is exact
+                    # (cd == 1) or every result of the window is in {-1, 0, 1} (cd > 4000*cn) a stride only.
                     informative = P.cd > 1 and P.cd <= 4000 * P.cn
-                    cs = sweep if (informative or not quick) else range(-2000, 2001, 5)
+                    W = min(2000, 2 * P.cd + 5, 130) if informative else 3
+                    pts = set(range(-W, W + 1)) | set(range(-2000, 2001, 29)) | {-2000, 2000}
+                    if informative and P.cd > P.cn and 2 * P.cd + 5 > 130:
+                        # coarsening with a long period: the counts of [-2000, 2000] next to a change of the
+                        # floor, ceiling or nearest value (multiples and half-multiples of the target tick)
+                        A, B = P.A, P.B
+                        lo = -2001
+                        F = [(c * A) // B for c in range(lo, 2002)]
+                        C = [-((-(c * A)) // B) for c in range(lo, 2002)]
+                        R = [(2 * c * A + B) // (2 * B) for c in range(lo, 2002)]   # floor(x + 1/2): changes at the ties
+                        for c in range(-2000, 2001):
+                            k = c - lo
+                            if (F[k] != F[k - 1] or F[k] != F[k + 1] or C[k] != C[k - 1] or C[k] != C[k + 1]
+                                    or R[k] != R[k - 1] or R[k] != R[k + 1]):
+                                pts.update((c - 1, c, c + 1))
+                    cs = sorted(c for c in pts if -2000 <= c <= 2000)
                 elif core:
-                    cs = range(-2000, 2001, 41 if quick else 3)
+                    cs = range(-2000, 2001, 83)
                 else:
-                    cs = range(-2000, 2001, 97 if quick else 7)
+                    cs = range(-2000, 2001, 211)
                 for c in cs:
                     if P.rnd4_ok(c):
                         out.append(f"{h('rnd4')} {c}")
@@ -229,18 +251,23 @@ def gen(tier, rng):
                 if not quick and core and rc == 0:
                     ic = sorted(set(ic) | {rng.randint(-10**12, 10**12) for _ in range(3000)})
                 for c in ic:
-                    if P.cast_ok(c):
-                        out.append(f"{h('cast')} {c}")
-                    if P.floor_ok(c):
-                        out.append(f"{h('floor')} {c}")
-                    if P.ceil_ok(c):
-                        out.append(f"{h('ceil')} {c}")
-                    if P.round_ok(c):
-                        out.append(f"{h('round')} {c}")
-                    if P.cast_ok(c):
+                    if quick and P.rnd4_ok(c):
+                        # one line for the four conversions; the single-op lines only where one of the
+                        # four leaves the representable domain (near the limits)
+                        out.append(f"{h('rnd4')} {c}")
+                    else:
+                        if P.cast_ok(c):
+                            out.append(f"{h('cast')} {c}")
+                        if P.floor_ok(c):
+                            out.append(f"{h('floor')} {c}")
+                        if P.ceil_ok(c):
+                            out.append(f"{h('ceil')} {c}")
+                        if P.round_ok(c):
+                            out.append(f"{h('round')} {c}")
+                    if P.cast_ok(c) and (not quick or c % 2 == 0 or abs(c) > 10**6):
                         out.append(f"{h('conv')} {c}")
                 # time_point wrappers: a sample of the same counts
-                tpc = list(range(-2000, 2001, 401 if quick else 23)) + ic[:: (5 if quick else 1)]
+                tpc = list(range(-2000, 2001, 401 if quick else 23)) + ic[:: (7 if quick else 1)]
                 for c in tpc:
                     if P.rnd4_ok(c):
                         out.append(f"{h('tp_rnd4')} {c}")
@@ -250,7 +277,7 @@ def gen(tier, rng):
                         out.append(f"{h('tp_conv')} {c}")
                 # floating-point target representation (tested only)
                 if rc == 0:
-                    for c in list(range(-40, 41, 7)) + ic[::9]:
+                    for c in list(range(-40, 41, 7 if not quick else 19)) + ic[::(9 if not quick else 23)]:
                         if fits(64, c) and abs(c) < 2**53 and abs(c * P.cn) < 2**53:
                             out.append(f"{h('fcast_if')} {c}")
                             out.append(f"{h('fconv_if')} {c}")
@@ -259,29 +286,52 @@ def gen(tier, rng):
                     continue
                 lim1 = min((1 << (P.w1 - 1)) - 1, ((1 << (P.wc - 1)) - 1) // P.f1)
                 lim2 = min((1 << (P.w2 - 1)) - 1, ((1 << (P.wc - 1)) - 1) // P.f2)
-                k = 12 if (core and rc == 0) else 5
-                if not quick:
-                    k *= 3
+                k = (3 if (core and rc == 0) else 0) if quick else (22 if (core and rc == 0) else 15)
                 s1 = rng.sample(SMALL, min(k, len(SMALL))) + [lim1, -lim1, lim1 // 2, -(lim1 // 3), rng.randint(-lim1, lim1)]
                 s2 = rng.sample(SMALL, min(k, len(SMALL))) + [lim2, -lim2, lim2 // 2, -(lim2 // 3), rng.randint(-lim2, lim2)]
                 pairs = {(a, b) for a in s1 for b in s2}
                 # equal values: c1*n1*d2 == c2*n2*d1  <=>  c1 = t*cd', c2 = t*cn' of the reduced factor
-                for t in (0, 1, -1, 2, -5, 17, 1000, -999, rng.randint(-10**4, 10**4)):
+                for t in ((0, 1, -1, 17, -999, rng.randint(-10**4, 10**4)) if quick else
+                          (0, 1, -1, 2, -5, 17, 1000, -999, rng.randint(-10**4, 10**4))):
                     for e1 in (-1, 0, 1):
                         for e2 in (-1, 0, 1):
                             pairs.add((t * P.cd + e1, t * P.cn + e2))
-                for (c1, c2) in sorted(pairs):
+                for idx, (c1, c2) in enumerate(sorted(pairs)):
+                    if quick and idx % 2 == 1:
+                        # quick: +,- (and the time_point forms) on every second pair, /,% on the others, comparisons on all
+                        if P.div_ok(c1, c2):
+                            out.append(f"{h('div')} {c1} {c2}")
+                            out.append(f"{h('mod')} {c1} {c2}")
+                        if P.both_ok(c1, c2):
+                            out.append(f"{h('cmp')} {c1} {c2}")
+                            if (c1 + c2) % 4 == 0:
+                                out.append(f"{h('tp_cmp')} {c1} {c2}")
+                        continue
                     if P.plus_ok(c1, c2):
                         out.append(f"{h('plus')} {c1} {c2}")
                     if P.minus_ok(c1, c2):
                         out.append(f"{h('minus')} {c1} {c2}")
-                    if P.div_ok(c1, c2):
+                    if P.div_ok(c1, c2) and not quick:
                         out.append(f"{h('div')} {c1} {c2}")
                         out.append(f"{h('mod')} {c1} {c2}")
+                    if P.plus_ok(c1, c2) and P.minus_ok(c1, c2) and ((c1 - c2) % 3 == 0 or not quick):
+                        out.append(f"{h('tp_arith')} {c1} {c2}")
                     if P.both_ok(c1, c2):
                         out.append(f"{h('cmp')} {c1} {c2}")
                         if (c1 + c2) % 4 == 0 or not quick:
                             out.append(f"{h('tp_cmp')} {c1} {c2}")
+                # ---- duration (first type) op scalar (of the second representation type)
+                if core or i == j:
+                    l1, l2, lc = (1 << (P.w1 - 1)) - 1, (1 << (P.w2 - 1)) - 1, (1 << (P.wc - 1)) - 1
+                    cs = [0, 1, -1, 7, -7, 1000, -86399, l1, -l1 - 1, l1 // 3, 1 << 31, -(1 << 31), 46341, rng.randint(-l1, l1)]
+                    xs = [1, -1, 2, -3, 60, 1000, l2, -l2 - 1, 46340, 3037000499, rng.randint(-l2, l2)]
+                    if quick and not (i == j or (i, j) in NARROW):
+                        cs, xs = cs[::3], xs[::2]
+                    for c in cs:
+                        for x in xs:
+                            if (x != 0 and fits(P.w1, c) and fits(P.w2, x) and fits(P.wc, c * x)
+                                    and fits(P.wc, tquot(c, x))):
+                                out.append(f"{h('scalar')} {c} {x}")
                 # ---- one type: member operators, abs
                 if j == i or (core and j == (i + 1) % CORE):
                     w = P.w1
@@ -296,7 +346,8 @@ def gen(tier, rng):
                             out.append(f"{h('tp_unary')} {c}")
                         if fits(w, -c):
                             out.append(f"{h('abs')} {c}")
-                        for x in (1, -1, 2, -3, 7, 1000, -86400, lim // 3, rng.randint(-lim, lim)):
+                        for x in ((1, -1, 2, -3, 7, 1000, -86400, lim // 3, rng.randint(-lim, lim)) if (not quick or j == i)
+                                  else (-1, 7, lim // 3)):
                             if x != 0 and all(fits(w, v) for v in (c + x, c - x, c * x)) and not (c == -lim - 1 and x == -1):
                                 out.append(f"{h('compound')} {c} {x}")
                                 out.append(f"{h('tp_compound')} {c} {x}")
